@@ -140,6 +140,33 @@ of 99 999 items are rejected, and nothing of that size is ever built -/
 example : decode1 [0x9a, 0x00, 0x01, 0x86, 0x9f, 0x9a, 0x00, 0x01, 0x86, 0x9f] = none :=
   unbacked_claim_rejected _ _ _ 4 26 99999 [0x9a, 0x00, 0x01, 0x86, 0x9f] (by decide) (Or.inl ⟨by simp, by decide⟩)
 
+/-- **Reserved and indefinite-length heads are refused** wherever an item is expected: a first byte
+whose additional info is 28..30 (reserved) or 31 (indefinite length, break) never starts an accepted
+item, whatever follows. (Before repair cd51579 the structural decoder read such a head as argument 0
+while `Decoder.unwrap` read the info value as a length, so the two disagreed on where the item ends.) -/
+theorem reserved_heads_rejected (f d : Nat) (x : UInt8) (t : Bytes) (h : x.toNat % 32 ≥ 28) :
+    decode f d (x :: t) = none := by
+  cases f with
+  | zero => simp [decode]
+  | succ f =>
+    have hd : decHead (x :: t) = none := by
+      simp only [decHead]
+      rw [if_neg (by omega), if_pos h]
+    simp [decode, hd]
+
+/-- the same for a byte-wrapped target (`Bstr`, `ByteWrap`, certificates), which reads its head through
+`Decoder.unwrap` -/
+theorem reserved_heads_rejected_unwrap (x : UInt8) (t : Bytes) (h : x.toNat % 32 ≥ 28) :
+    unwrapBytes (x :: t) = none := by
+  have hd : decHead (x :: t) = none := by
+    simp only [decHead]
+    rw [if_neg (by omega), if_pos h]
+  simp [unwrapBytes, hd]
+
+/-- the input on which the two decoders disagreed: 0x5c followed by 28 bytes -/
+example (t : Bytes) : decode1 (0x5c :: t) = none ∧ unwrapBytes (0x5c :: t) = none :=
+  ⟨reserved_heads_rejected _ _ _ _ (by decide), reserved_heads_rejected_unwrap _ _ (by decide)⟩
+
 /-! ### every decode target -/
 
 /-- **Exact consumption for every decode target**: whatever Go type is decoded into (any schema of the
